@@ -1,4 +1,5 @@
 import Liquid.Scan
+import Liquid.Value
 /-!
 # Line-protocol driver (DESIGN §5.1): one case per line in, one canonical result line out.
 -/
@@ -13,4 +14,8 @@ def runCase (line : String) : String :=
   match line.splitOn " " with
   | ["scan", d, ln, src] =>
     showTokens (scan (parseDelims d) (hexDecode src) ln.toNat!)
+  | ["val", v] =>
+    match GoVal.parse v with
+    | some x => x.enc
+    | none => "unmodelled parse"
   | _ => "bad-op"
